@@ -776,13 +776,6 @@ func (r *Runner) doIter(a *Action, pv *any, call func(func())) error {
 func (r *Runner) doSaveLoad(a *Action) error {
 	c := r.Env.C
 	r.St.SaveLoads++
-	// snapshot of the source as the cache itself reports it
-	src := map[int]otter.Entry[int, int]{}
-	for k := 0; k < r.Cfg.Keys; k++ {
-		if g, ok := c.GetEntryQuietly(k); ok {
-			src[k] = g
-		}
-	}
 	var buf bytes.Buffer
 	var pv any
 	var serr error
@@ -800,6 +793,13 @@ func (r *Runner) doSaveLoad(a *Action) error {
 	r.maintRan()
 	if err := r.reconcile(); err != nil {
 		return err
+	}
+	// snapshot of the source as the cache itself reports it (saving ran the pending maintenance first)
+	src := map[int]otter.Entry[int, int]{}
+	for k := 0; k < r.Cfg.Keys; k++ {
+		if g, ok := c.GetEntryQuietly(k); ok {
+			src[k] = g
+		}
 	}
 	// clock offset between save and load
 	switch {
@@ -829,6 +829,9 @@ func (r *Runner) doSaveLoad(a *Action) error {
 	tcfg.Stats = false
 	if r.Cfg.Bound != BoundNone && a.N > 0 {
 		tcfg.Maximum = uint64(a.N)
+	}
+	if tcfg.Bound != BoundNone && tcfg.Maximum == 0 {
+		tcfg.Maximum = 1 // a bounded cache cannot be constructed with maximum 0
 	}
 	tenv := BuildEnv(tcfg, EnvOpts{})
 	defer tenv.Close()
